@@ -19,6 +19,15 @@ def main():
     try: seed = int(os.environ.get("VERIF_SEED") or "1")
     except ValueError: seed = 1
     t0 = time.time()
+    # properties that do not speak about the host's zone are checked under a zone with an odd offset and DST, so that code which
+    # starts to depend on local time shows; the zone-dependent ones (C10 C11 C13 C14) pick their zones themselves, C02 states UTC
+    HOST_ZONE = {"C05": "Pacific/Chatham", "C07": "Pacific/Chatham", "C08": "Pacific/Chatham", "C09": "Asia/Kathmandu", "C06": "America/St_Johns",
+                 "C15": "Asia/Kathmandu", "C16": "Australia/Lord_Howe", "C01": "America/St_Johns", "C03": "Pacific/Chatham"}
+    if prop in HOST_ZONE and os.path.exists("/usr/share/zoneinfo/" + HOST_ZONE[prop]):
+        os.environ["TZ"] = HOST_ZONE[prop]; time.tzset()
+    if prop != "C06":          # the library's loggers at DEBUG (discarding handler): code that only runs while someone is debugging runs here too; C06 runs both ways
+        import logging
+        logging.getLogger("aioswitcher").addHandler(logging.NullHandler()); logging.getLogger("aioswitcher").setLevel(logging.DEBUG)
     P = importlib.import_module("props." + prop.lower())
     trusted = ["Coq 8.16.1 kernel and coqc; vm_compute is used in proofs, native_compute is not",
                "harness/extract_consts.py: the translator that regenerates coq/theories/Gen/Extracted.v (packet templates, enum "
